@@ -527,6 +527,12 @@ class UpdateCollection(Message):
                         withdraws = b''
                     mp_unreach = mpurnlri
 
+            if not (mp_reach or mp_unreach or withdraws or announced):
+                # a family with withdraws only, and withdraws are not to be sent (first window of a session): there is
+                # nothing to say. Sent anyway, the message was an UPDATE with no route at all -- the End-of-RIB of
+                # IPv4 unicast, before the first route of the table
+                continue
+
             yield self._message(
                 UpdateCollection.prefix(withdraws) + UpdateCollection.prefix(mp_unreach + attr + mp_reach) + announced,
             )  # yield mpr/mpur per family
